@@ -263,6 +263,97 @@ theorem generation_inv {σ : Type} {ev : List Int → List Int} {stp : Step σ} 
         simp; omega
       simp [this]
 
+/-! ### what the hall of fame is shown -/
+
+/-- every individual shown to the hall of fame carried, when it was shown, the fitness `evaluate` gives for
+the genotype it had then; `shownObj` lists the same individuals as `shown` -/
+def ShownOk (ev : List Int → List Int) (s : LState) : Prop :=
+  (∀ e ∈ s.shownObj, e.2.fit = some (ev e.2.genome)) ∧ s.shownObj.map (·.1) = s.shown
+
+/-- after the evaluation block of a generation EVERY offspring (selected later or not) is truthful -/
+theorem generation_off_truthful {σ : Type} {ev : List Int → List Int} {stp : Step σ} (hc : StepContract stp)
+    {g : Nat} {t : σ} {s : LState} {r : Res σ} (hinv : Inv ev g s) (hr : stp.produce t s.st s.pop = some r) :
+    ∀ p ∈ r.off, (assignFits ev r.st.heap (evalSet stp r) p).fit =
+      some (ev (assignFits ev r.st.heap (evalSet stp r) p).genome) := by
+  intro p h1
+  by_cases hin : p ∈ evalSet stp r
+  · rw [assignFits_mem _ _ _ _ hin, assignFits_genome]
+  · rw [assignFits_not_mem _ _ _ _ hin]
+    have hall : stp.evalAll = false := by
+      cases hb : stp.evalAll with
+      | false => rfl
+      | true => simp [evalSet, hb] at hin; exact absurd h1 hin
+    have hvalid : (r.st.heap p).fit ≠ none := by
+      intro hn
+      apply hin
+      simp only [evalSet, hall]
+      exact mem_invalidOf.2 ⟨h1, hn⟩
+    rcases hc.copy_or_invalid hall t s.st s.pop r hinv.alloc hr p h1 with hn | ⟨q, hq, hcopy⟩
+    · exact absurd hn hvalid
+    · rw [hcopy]; exact hinv.truthful q hq
+
+theorem generation_shown {σ : Type} {ev : List Int → List Int} {stp : Step σ} (hc : StepContract stp)
+    {g : Nat} {t t' : σ} {s s' : LState} (hinv : Inv ev g s) (hsh : ShownOk ev s)
+    (h : generation ev stp g t s = some (t', s')) : ShownOk ev s' := by
+  simp only [generation] at h
+  split at h
+  · simp at h
+  next r hr =>
+    split at h
+    · simp at h
+    next np hnp =>
+      simp only [Option.some.injEq, Prod.mk.injEq] at h
+      obtain ⟨_, hs⟩ := h
+      subst hs
+      have htr := generation_off_truthful (ev := ev) hc hinv hr
+      constructor
+      · intro e he
+        have he' : e ∈ s.shownObj ++ r.off.map (fun o => (o, assignFits ev r.st.heap (evalSet stp r) o)) := by
+          simpa [evalPhase, evalSet] using he
+        rcases List.mem_append.1 he' with h1 | h1
+        · exact hsh.1 e h1
+        · obtain ⟨o, ho, rfl⟩ := List.mem_map.1 h1
+          exact htr o ho
+      · show (s.shownObj ++ r.off.map (fun o => (o, assignFits ev r.st.heap _ o))).map (·.1) = s.shown ++ r.off
+        rw [List.map_append, hsh.2, List.map_map]
+        congr 1
+        exact List.map_id'' (fun _ => rfl) _
+
+theorem gen0_shown (ev : List Int → List Int) (s : LState)
+    (htruth : ∀ p ∈ s.pop, ∀ f, (s.st.heap p).fit = some f → f = ev (s.st.heap p).genome)
+    (hshown : s.shown = []) (hshownObj : s.shownObj = []) : ShownOk ev (gen0 ev s) := by
+  constructor
+  · intro e he
+    have he' : e ∈ s.shownObj ++ s.pop.map (fun o => (o, assignFits ev s.st.heap (invalidOf s.st.heap s.pop) o)) := he
+    rw [hshownObj, List.nil_append] at he'
+    obtain ⟨p, hp, rfl⟩ := List.mem_map.1 he'
+    show (assignFits ev s.st.heap (invalidOf s.st.heap s.pop) p).fit = _
+    rw [assignFits_genome]
+    by_cases hin : p ∈ invalidOf s.st.heap s.pop
+    · rw [assignFits_mem _ _ _ _ hin]
+    · rw [assignFits_not_mem _ _ _ _ hin]
+      cases hf : (s.st.heap p).fit with
+      | none => exact absurd (mem_invalidOf.2 ⟨hp, hf⟩) hin
+      | some f => rw [htruth p hp f hf]
+  · show (s.shownObj ++ s.pop.map (fun o => (o, assignFits ev s.st.heap _ o))).map (·.1) = s.shown ++ s.pop
+    rw [hshownObj, hshown, List.nil_append, List.nil_append, List.map_map]
+    exact List.map_id'' (fun _ => rfl) _
+
+theorem runGens_shown {σ : Type} {ev : List Int → List Int} :
+    ∀ (steps : List (Step σ)) (g : Nat) (t t' : σ) (s s' : LState), (∀ stp ∈ steps, StepContract stp) →
+      Inv ev g s → ShownOk ev s → runGens ev steps g t s = some (t', s') → ShownOk ev s'
+  | [], g, t, t', s, s', _, _, hsh, h => by
+    simp only [runGens, Option.some.injEq, Prod.mk.injEq] at h
+    obtain ⟨_, rfl⟩ := h
+    exact hsh
+  | stp :: rest, g, t, t', s, s', hc, hinv, hsh, h => by
+    simp only [runGens] at h
+    split at h
+    · simp at h
+    next t1 s1 hgen =>
+      exact runGens_shown rest (g + 1) t1 t' s1 s' (fun x hx => hc x (by simp [hx]))
+        (generation_inv (hc stp (by simp)) hinv hgen) (generation_shown (hc stp (by simp)) hinv hsh hgen) h
+
 theorem runGens_inv {σ : Type} {ev : List Int → List Int} :
     ∀ (steps : List (Step σ)) (g : Nat) (t t' : σ) (s s' : LState), (∀ stp ∈ steps, StepContract stp) →
       Inv ev g s → runGens ev steps g t s = some (t', s') → Inv ev (g + steps.length) s'
@@ -376,8 +467,7 @@ theorem simpleStep_contract {σ : Type} {ops : Ops σ} (hc : OpContract ops) (d 
   next_le := by
     intro t st pop r _ h
     obtain ⟨chosen, _, _, hv⟩ := simple_produce h
-    have := (C02.varAnd_offspring_oids hc hv).2
-    omega
+    exact C02.varAnd_next_le hc hv
   off_alloc := by
     intro t st pop r _ h o ho
     obtain ⟨chosen, _, _, hv⟩ := simple_produce h
@@ -606,7 +696,7 @@ theorem Good.mono {s0 : St} {pop : List Nat} {s s1 : St} {o : Nat} (hg : Good s0
   exact h3
 
 theorem harmGen_spec {σ : Type} {ops : Ops σ} (hc : OpContract ops) (pop : List Nat) (s0 : St)
-    (hpop : ∀ p ∈ pop, p < s0.next) {t t1 : σ} {s s1 : St} {g : HStep} {asp : List Nat}
+    (hpop : ∀ p ∈ pop, p < s0.next) {δ : Type} {t t1 : σ} {s s1 : St} {g : HStep δ} {asp : List Nat}
     (hle : s0.next ≤ s.next) (hfr0 : ∀ o, o < s0.next → s.heap o = s0.heap o)
     (h : harmGen ops pop t s g = some (t1, s1, asp)) :
     s.next ≤ s1.next ∧ (∀ o, o < s.next → s1.heap o = s.heap o) ∧
@@ -618,22 +708,31 @@ theorem harmGen_spec {σ : Type} {ops : Ops σ} (hc : OpContract ops) (pop : Lis
     split at h
     next p q hp hq =>
       simp only [clone_oid, clone_next, Option.some.injEq, Prod.mk.injEq] at h
-      rw [hc.mate_fst, hc.mate_snd] at h
+      have hnx := hc.mate_next t (clone (clone s p).1 q).1.heap (s.next + 1 + 1) s.next (s.next + 1)
+      have hf := hc.mate_fst t (clone (clone s p).1 q).1.heap (s.next + 1 + 1) s.next (s.next + 1)
+      have hsn := hc.mate_snd t (clone (clone s p).1 q).1.heap (s.next + 1 + 1) s.next (s.next + 1)
+      have hds := hc.mate_distinct t (clone (clone s p).1 q).1.heap (s.next + 1 + 1) s.next (s.next + 1)
+        (by omega)
+      have hfrm := hc.mate_frame t (clone (clone s p).1 q).1.heap (s.next + 1 + 1) s.next (s.next + 1)
+      generalize ops.mate t (clone (clone s p).1 q).1.heap (s.next + 1 + 1) s.next (s.next + 1) = r0
+        at h hnx hf hsn hds hfrm
       obtain ⟨_, hs, ha⟩ := h
       subst hs; subst ha
-      refine ⟨by simp; omega, ?_, ?_, by simp⟩
+      have hlf : s.next ≤ r0.fst ∧ r0.fst < r0.next := by rcases hf with e | e | e <;> omega
+      have hls : s.next ≤ r0.snd ∧ r0.snd < r0.next := by rcases hsn with e | e | e <;> omega
+      refine ⟨by show s.next ≤ r0.next; omega, ?_, ?_, by simp [hds]⟩
       · intro o ho
         show delFit (delFit _ _) _ o = _
         rw [delFit_other _ _ _ (by omega), delFit_other _ _ _ (by omega),
-          hc.mate_frame _ _ _ _ _ (by omega) (by omega),
+          hfrm _ (by omega) (by omega) (by omega),
           clone_heap_old _ _ _ (by simp; omega), clone_heap_old _ _ _ (by omega)]
       · intro a ha
         simp only [List.mem_cons, List.not_mem_nil, or_false] at ha
         rcases ha with rfl | rfl
-        · refine ⟨Nat.le_refl _, hle, by simp; omega, Or.inl ?_⟩
+        · refine ⟨hlf.1, by omega, hlf.2, Or.inl ?_⟩
           show (delFit (delFit _ _) _ _).fit = none
           exact delFit_fit_none _ _ _ (by simp)
-        · refine ⟨by omega, by omega, by simp, Or.inl ?_⟩
+        · refine ⟨hls.1, by omega, hls.2, Or.inl ?_⟩
           show (delFit (delFit _ _) _ _).fit = none
           simp
     · simp at h
@@ -641,19 +740,23 @@ theorem harmGen_spec {σ : Type} {ops : Ops σ} (hc : OpContract ops) (pop : Lis
     simp only [harmGen] at h
     split at h
     next p hp =>
-      simp only [clone_oid, Option.some.injEq, Prod.mk.injEq] at h
-      rw [hc.mutate_ret] at h
+      simp only [clone_oid, clone_next, Option.some.injEq, Prod.mk.injEq] at h
+      have hnx := hc.mutate_next t (clone s p).1.heap (s.next + 1) s.next
+      have hret := hc.mutate_ret t (clone s p).1.heap (s.next + 1) s.next
+      have hfrm := hc.mutate_frame t (clone s p).1.heap (s.next + 1) s.next
+      generalize ops.mutate t (clone s p).1.heap (s.next + 1) s.next = r0 at h hnx hret hfrm
       obtain ⟨_, hs, ha⟩ := h
       subst hs; subst ha
-      refine ⟨by simp, ?_, ?_, by simp⟩
+      have hlr : s.next ≤ r0.ret ∧ r0.ret < r0.next := by rcases hret with e | e <;> omega
+      refine ⟨by show s.next ≤ r0.next; omega, ?_, ?_, by simp⟩
       · intro o ho
         show delFit _ _ o = _
-        rw [delFit_other _ _ _ (by omega), hc.mutate_frame _ _ _ _ (by omega),
+        rw [delFit_other _ _ _ (by omega), hfrm _ (by omega) (by omega),
           clone_heap_old _ _ _ (by omega)]
       · intro a ha
         simp only [List.mem_singleton] at ha
         subst ha
-        refine ⟨Nat.le_refl _, hle, by simp, Or.inl ?_⟩
+        refine ⟨hlr.1, by omega, hlr.2, Or.inl ?_⟩
         show (delFit _ _ _).fit = none
         simp
     · simp at h
@@ -676,22 +779,22 @@ theorem harmGen_spec {σ : Type} {ops : Ops σ} (hc : OpContract ops) (pop : Lis
         exact hfr0 p (hpop p hpm)
     · simp at h
 
-theorem acceptInto_sublist (n : Nat) (always : Bool) :
+theorem acceptInto_sublist (n : Nat) :
     ∀ (asp : List Nat) (produced : List Nat) (accs : List Bool),
-      (acceptInto n always produced asp accs).Sublist (produced ++ asp)
+      (acceptInto n produced asp accs).Sublist (produced ++ asp)
   | [], produced, accs => by simp [acceptInto]
   | a :: as, produced, [] => by simp [acceptInto]
   | a :: as, produced, c :: cs => by
     simp only [acceptInto]
     split
-    · have := acceptInto_sublist n always as (produced ++ [a]) cs
+    · have := acceptInto_sublist n as (produced ++ [a]) cs
       simpa [List.append_assoc] using this
-    · have := acceptInto_sublist n always as produced cs
+    · have := acceptInto_sublist n as produced cs
       exact this.trans (List.Sublist.append (List.Sublist.refl produced) (List.sublist_cons_self a as))
 
-theorem genpop_spec {σ : Type} {ops : Ops σ} (hc : OpContract ops) (pop : List Nat) (s0 : St)
-    (hpop : ∀ p ∈ pop, p < s0.next) (n : Nat) (always : Bool) :
-    ∀ (steps : List HStep) (t : σ) (s : St) (pickfrom produced : List Nat) (t' : σ) (s' : St)
+theorem genpop_spec {σ δ : Type} {ops : Ops σ} (hc : OpContract ops) (pop : List Nat) (s0 : St)
+    (hpop : ∀ p ∈ pop, p < s0.next) (n : Nat) (always : St → Nat → δ → Bool) :
+    ∀ (steps : List (HStep δ)) (t : σ) (s : St) (pickfrom produced : List Nat) (t' : σ) (s' : St)
       (pf' prod' : List Nat),
       genpop ops pop n always steps t s pickfrom produced = some (t', s', pf', prod') →
       s0.next ≤ s.next → (∀ o, o < s0.next → s.heap o = s0.heap o) →
@@ -750,7 +853,7 @@ theorem genpop_spec {σ : Type} {ops : Ops σ} (hc : OpContract ops) (pop : List
       next t1 s1 asp hgen =>
         obtain ⟨hle1, hfr1, hasp, haspnd⟩ := harmGen_spec hc pop s0 hpop hle hfr hgen
         simp only [List.nil_append] at hgood hnd
-        have hsub := acceptInto_sublist n always asp produced g.accs
+        have hsub := acceptInto_sublist n asp produced (List.zipWith (fun a d => always s1 a d) asp g.accs)
         refine genpop_spec hc pop s0 hpop n always rest t1 s1 [] _ t' s' pf' prod' h (by omega)
           (fun o ho => by rw [hfr1 o (by omega), hfr o ho]) ?_ ?_
         · intro o ho
@@ -767,31 +870,36 @@ theorem genpop_spec {σ : Type} {ops : Ops σ} (hc : OpContract ops) (pop : List
           have := (hasp a hb).1
           omega
 
-theorem harm_produce {σ : Type} {ops : Ops σ} {nbr : Nat} {d : HarmDec} {t : σ} {st : St} {pop : List Nat}
-    {r : Res σ} (h : (harmStep ops nbr d).produce t st pop = some r) :
-    ∃ t1 s1 pf1 natural pf2,
-      genpop ops pop nbr true d.natural t st [] [] = some (t1, s1, pf1, natural) ∧
-      genpop ops pop pop.length false d.accepted t1 s1 natural [] = some (r.tape, r.st, pf2, r.off) := by
-  simp only [harmStep] at h
+theorem harm_produce {σ δ : Type} {ops : Ops σ} {nbr : Nat}
+    {mk : St → List Nat → List Nat → Option (St → Nat → δ → Bool)} {d : HarmDec δ} {t : σ} {st : St}
+    {pop : List Nat} {r : Res σ} (h : (harmStepG ops nbr mk d).produce t st pop = some r) :
+    ∃ t1 s1 pf1 natural pf2 acc,
+      genpop ops pop nbr (fun _ _ _ => true) d.natural t st [] [] = some (t1, s1, pf1, natural) ∧
+      genpop ops pop pop.length acc d.accepted t1 s1 natural [] = some (r.tape, r.st, pf2, r.off) := by
+  simp only [harmStepG] at h
   split at h
   · simp at h
   next t1 s1 pf1 natural h1 =>
     split at h
     · simp at h
-    next t2 s2 pf2 off h2 =>
-      simp only [Option.some.injEq] at h
-      subst h
-      exact ⟨t1, s1, pf1, natural, pf2, h1, h2⟩
+    next acc hacc =>
+      split at h
+      · simp at h
+      next t2 s2 pf2 off h2 =>
+        simp only [Option.some.injEq] at h
+        subst h
+        exact ⟨t1, s1, pf1, natural, pf2, acc, h1, h2⟩
 
-theorem harm_produce_facts {σ : Type} {ops : Ops σ} (hc : OpContract ops) {nbr : Nat} {d : HarmDec} {t : σ}
+theorem harm_produce_facts {σ δ : Type} {ops : Ops σ} (hc : OpContract ops) {nbr : Nat}
+    {mk : St → List Nat → List Nat → Option (St → Nat → δ → Bool)} {d : HarmDec δ} {t : σ}
     {st : St} {pop : List Nat} {r : Res σ} (hpop : ∀ p ∈ pop, p < st.next)
-    (h : (harmStep ops nbr d).produce t st pop = some r) :
+    (h : (harmStepG ops nbr mk d).produce t st pop = some r) :
     st.next ≤ r.st.next ∧ (∀ o, o < st.next → r.st.heap o = st.heap o) ∧
       (∀ o ∈ r.off, Good st pop r.st o) ∧ r.off.Nodup ∧ r.off.length = pop.length := by
-  obtain ⟨t1, s1, pf1, natural, pf2, h1, h2⟩ := harm_produce h
-  obtain ⟨hle1, hfr1, hgood1, hnd1, _⟩ := genpop_spec hc pop st hpop nbr true _ _ _ _ _ _ _ _ _ h1
+  obtain ⟨t1, s1, pf1, natural, pf2, acc, h1, h2⟩ := harm_produce h
+  obtain ⟨hle1, hfr1, hgood1, hnd1, _⟩ := genpop_spec hc pop st hpop nbr _ _ _ _ _ _ _ _ _ _ h1
     (Nat.le_refl _) (fun _ _ => rfl) (by simp) (by simp)
-  obtain ⟨hle2, hfr2, hgood2, hnd2, hlen2⟩ := genpop_spec hc pop st hpop pop.length false _ _ _ _ _ _ _ _ _ h2
+  obtain ⟨hle2, hfr2, hgood2, hnd2, hlen2⟩ := genpop_spec hc pop st hpop pop.length acc _ _ _ _ _ _ _ _ _ h2
     hle1 hfr1 (by
       intro o ho
       simp only [List.append_nil] at ho
@@ -799,8 +907,11 @@ theorem harm_produce_facts {σ : Type} {ops : Ops σ} (hc : OpContract ops) {nbr
     (by simpa using (List.nodup_append.1 hnd1).2.1)
   exact ⟨hle2, hfr2, fun o ho => hgood2 o (List.mem_append_right _ ho), (List.nodup_append.1 hnd2).2.1, hlen2⟩
 
-theorem harmStep_contract {σ : Type} {ops : Ops σ} (hc : OpContract ops) (nbr : Nat) (d : HarmDec) :
-    StepContract (harmStep ops nbr d) where
+/-- Whatever the acceptance function of the second `_genpop` is (Booleans read off the tape, or the
+modelled arithmetic on the recorded draws), a HARM generation meets the step contract. -/
+theorem harmStepG_contract {σ δ : Type} {ops : Ops σ} (hc : OpContract ops) (nbr : Nat)
+    (mk : St → List Nat → List Nat → Option (St → Nat → δ → Bool)) (d : HarmDec δ) :
+    StepContract (harmStepG ops nbr mk d) where
   next_le := fun _ _ _ _ hpop h => (harm_produce_facts hc hpop h).1
   off_alloc := fun _ _ _ _ hpop h o ho => ((harm_produce_facts hc hpop h).2.2.1 o ho).2.1
   frame := fun _ _ _ _ _ hpop h => (harm_produce_facts hc hpop h).2.1
@@ -811,18 +922,28 @@ theorem harmStep_contract {σ : Type} {ops : Ops σ} (hc : OpContract ops) (nbr 
   copy_or_invalid := fun _ _ _ _ _ hpop h o ho => ((harm_produce_facts hc hpop h).2.2.1 o ho).2.2
   replace_mem := by
     intro h pop off np hr o ho
-    simp only [harmStep, Option.some.injEq] at hr
+    simp only [harmStepG, Option.some.injEq] at hr
     subst hr
     exact Or.inr ho
-  replace_off := by intro hall; simp [harmStep] at hall
+  replace_off := by intro hall; simp [harmStepG] at hall
 
-theorem harmStep_size {σ : Type} {ops : Ops σ} (hc : OpContract ops) (nbr : Nat) (d : HarmDec) {t : σ}
+theorem harmStepG_size {σ δ : Type} {ops : Ops σ} (hc : OpContract ops) (nbr : Nat)
+    (mk : St → List Nat → List Nat → Option (St → Nat → δ → Bool)) (d : HarmDec δ) {t : σ}
     {st : St} {pop : List Nat} {r : Res σ} {h : Heap} {np : List Nat} (hpop : ∀ p ∈ pop, p < st.next)
-    (hp : (harmStep ops nbr d).produce t st pop = some r)
-    (hr : (harmStep ops nbr d).replace h pop r.off = some np) : np.length = pop.length := by
-  simp only [harmStep, Option.some.injEq] at hr
+    (hp : (harmStepG ops nbr mk d).produce t st pop = some r)
+    (hr : (harmStepG ops nbr mk d).replace h pop r.off = some np) : np.length = pop.length := by
+  simp only [harmStepG, Option.some.injEq] at hr
   subst hr
   exact (harm_produce_facts hc hpop hp).2.2.2.2
+
+theorem harmStep_contract {σ : Type} {ops : Ops σ} (hc : OpContract ops) (nbr : Nat) (d : HarmDec Bool) :
+    StepContract (harmStep ops nbr d) := harmStepG_contract hc nbr _ d
+
+theorem harmStep_size {σ : Type} {ops : Ops σ} (hc : OpContract ops) (nbr : Nat) (d : HarmDec Bool) {t : σ}
+    {st : St} {pop : List Nat} {r : Res σ} {h : Heap} {np : List Nat} (hpop : ∀ p ∈ pop, p < st.next)
+    (hp : (harmStep ops nbr d).produce t st pop = some r)
+    (hr : (harmStep ops nbr d).replace h pop r.off = some np) : np.length = pop.length :=
+  harmStepG_size hc nbr _ d hpop hp hr
 
 /-! ### truncation selection keeps a best individual -/
 
